@@ -1089,7 +1089,7 @@ func (w *World) summarizeCall(c *ssa.Call, mode Mode) *Summary {
 	descs := make([]string, len(args))
 	for i, p := range g.Params {
 		names[i] = p.Name()
-		descs[i] = descDepth(args[i], 5)
+		descs[i] = desc(args[i])
 	}
 	out := &Summary{Fn: s.Fn, Mode: s.Mode, Exits: s.Exits, Complete: s.Complete, States: s.States, Checked: map[string]string{}}
 	for l, site := range s.Checked {
